@@ -1131,7 +1131,14 @@ impl<'a> TLVSequence<'a> {
     pub(crate) fn container_len(&self) -> Result<usize, Error> {
         let control = self.control()?;
 
-        Self::total_len(control, self.container_value_len(control)?)
+        let len = Self::total_len(control, self.container_value_len(control)?)?;
+
+        if len > self.0.len() {
+            // The length field of a (truncated) string points beyond the slice
+            Err(ErrorCode::TLVTypeMismatch)?;
+        }
+
+        Ok(len)
     }
 
     /// Returns a sub-slice representing the start of the next TLV element in the sequence.
